@@ -32,7 +32,7 @@ type Op struct {
 	Key int           `json:"key,omitempty"` // key index; -1 foreign key
 	T   int           `json:"t,omitempty"`   // target (S, R) or stranger (X)
 	N   int           `json:"n,omitempty"`   // payload size
-	Mod string        `json:"mod,omitempty"` // S: "" | flip | trunc-salt | trunc-tag | badtype | truncaddr | private | loopback | domain | empty | raw:<dst>
+	Mod string        `json:"mod,omitempty"` // S: "" | flip | trunc-salt | trunc-tag | badtype | truncaddr | private | loopback | cgnat | cgnat-mapped | ula | domain | empty | raw:<dst>
 	D   time.Duration `json:"d,omitempty"`   // A; sub-operations of P: delay before acting
 	Par []Op          `json:"par,omitempty"` // P: operations issued concurrently by separate threads
 	Raw []byte        `json:"raw,omitempty"` // S: the whole authenticated plaintext (address header included)
@@ -237,7 +237,10 @@ func Run(cfg Config, ops []Op, tr *Trace) {
 					}
 					switch sub.K {
 					case "S":
-						key := cfg.Keys[sub.Key]
+						key := Foreign
+						if sub.Key >= 0 {
+							key = cfg.Keys[sub.Key]
+						}
 						payload := Payload(sub.C, 100+i*10+j, sub.N)
 						plain := append(append([]byte{}, world.Addr(Targets[sub.T])...), payload...)
 						wire := world.PackUDP(key, uint64(1000+i*16+j), plain)
@@ -277,6 +280,12 @@ func Run(cfg Config, ops []Op, tr *Trace) {
 				dst = "10.0.0.7:53"
 			case op.Mod == "loopback":
 				dst = "127.0.0.1:53"
+			case op.Mod == "cgnat":
+				dst = "100.64.0.9:53"
+			case op.Mod == "cgnat-mapped":
+				dst = "[::ffff:100.100.1.1]:53"
+			case op.Mod == "ula":
+				dst = "[fd00::7]:53"
 			case op.Mod == "domain":
 				dst = "dns.example:53"
 			case op.Mod == "private-domain":
